@@ -6,9 +6,9 @@ conformance-tested on the concrete side).  `ops_fold(ops, n, row)` is the left f
 from pyvc.contract import contract, declare_class
 
 T = 'phylib/io/traces.py'
-declare_class('BaseEphysReader', T)
 OPS = 'list[tuple[elem,elem]]'
-FIELDS = {'_ops': OPS, 'part_bounds': 'list[int]', 'rows': 'list[elem]', 'other': 'elem'}
+FIELDS = {'_ops': OPS, 'part_bounds': 'list[int]', 'chunk_bounds': 'list[int]', 'rows': 'list[elem]', 'n_channels': 'int', 'sample_rate': 'real', 'ndim': 'int', 'other': 'elem'}
+declare_class('BaseEphysReader', T, fields=FIELDS)
 
 contract(T, 'BaseEphysReader._append_op', props=['C02', 'C01'],
     params={'op': 'elem', 'arg': 'elem'}, defaults={'arg': 'None'}, fields=FIELDS,
